@@ -3,6 +3,9 @@
 import json, os
 V = os.path.dirname(os.path.dirname(os.path.abspath(__file__)))
 props = json.load(open(os.path.join(V, "props.json")))
+import glob
+for fn in sorted(glob.glob(os.path.join(V, "props.d", "*.json"))):
+    props[os.path.basename(fn)[:-5]] = json.load(open(fn))
 allp = [json.loads(l) for l in open(os.path.join(V, "properties.jsonl"))]
 checks, na = [], []
 for p in allp:
